@@ -19,13 +19,13 @@ RULE = ("Hypothesis draws a type tree (depth drawn first from 0..3, 0..4 in the 
         "value built by construction for that tree (boundary-weighted integers +-2^k+-1, varints up to 2^320, decimals with exponents "
         "to +-400 and the int32 scale limits, float specials, non-BMP/NUL text, ms timestamps over years 1-9999, dates over the whole "
         "uint32 range, times, same-sign durations over int32/int32/int64, inet v4/v6, null elements/fields, empty collections, short "
-        "tuples), a protocol version from {1,2,3,4,5,6,0x41,0x42}, one of three Python input styles (canonical / stdlib alternates / "
-        "driver containers and raw ints) and the way the type class is built (apply_parameters or lookup_casstype of the class-name "
+        "tuples), a protocol version from {1,2,3,4,5,6,0x41,0x42}, one of four Python input styles (canonical / stdlib alternates / "
+        "driver containers and raw ints / timezone-aware datetimes with fixed offsets such as +05:30, +14:00, -12:00) and the way the type class is built (apply_parameters or lookup_casstype of the class-name "
         "string).  Non-trivial: tree depth >= 2, or the value is in a boundary class (integer at +-2^k+-1, varint >= 64 bit, non-BMP "
         "text, null inside a container, empty collection, protocol <= 2 with a top-level collection, timestamp outside 1970-2038, "
-        "short tuple, float special, date beyond datetime.date).  Distinctness by case digest.")
+        "short tuple, float special, date beyond datetime.date, a timezone-aware datetime input).  Distinctness by case digest.")
 ASSUMPTIONS = [
-    "float values are float32-representable; timestamps are naive datetimes (or ints) with millisecond precision inside datetime's range",
+    "float values are float32-representable; timestamps are naive or fixed-offset aware datetimes (or ints) with millisecond precision inside datetime's range; aware datetimes must come back as the naive UTC datetime of the same instant",
     "set elements / map keys are types the driver documents as orderable/serializable keys, contain no nulls and no NaN",
     "a top-level None is only checked as the documented b''<->None convention (part 'null'); support_empty_values is left off",
     "counter appears only as a top-level type; vectors have dimension >= 1 and non-null elements",
@@ -48,7 +48,7 @@ def _nontrivial(tree, feats):
     return V.depth(tree) >= 2 or bool(feats & {
         "int-boundary", "varint>=64bit", "non-bmp", "null-inside", "empty-collection", "v2-toplevel-collection",
         "ts-outside-1970-2038", "short-tuple", "float-special", "date-beyond-pydate", "decimal-big-exp", "duration-boundary",
-        "long>=128B"})
+        "long>=128B", "aware-datetime"})
 
 
 def _diff_key(sub, d, tree):
@@ -113,6 +113,9 @@ def interpret_roundtrip(case, ctx):
     shp = _drv.shape(tree)
     feats = _drv.label_case(ctx, tree, value, pv)
     ctx.label("style:%d" % style, "via:" + via)
+    if style == 3 and "timestamp" in V.leaves(tree) and V.contains_value(tree, value, "timestamp"):
+        feats = feats | {"aware-datetime"}
+        ctx.label("f:aware-datetime")
     if _drv.null_in_16bit_collection(tree, value, pv):
         # no representation exists: outside the domain (whether the driver should raise here is not C01's business)
         ctx.label("skip:null-in-v1/v2-16bit-collection")
@@ -232,6 +235,7 @@ def parts(tier):
                  # generator-degenerate guard: about one sixth of the fractions seen over five seeds
                  floors={"has:vector": 0.03, "has:udt": 0.03, "has:map": 0.04, "has:set": 0.04, "has:tuple": 0.03,
                          "f:null-inside": 0.035, "f:empty-collection": 0.03, "f:int-boundary": 0.025, "pv:v1-2": 0.06,
-                         "pv:dse": 0.03, "depth:2": 0.04, "style:1": 0.03, "style:2": 0.03, "via:string": 0.04}),
+                         "pv:dse": 0.03, "depth:2": 0.04, "style:1": 0.03, "style:2": 0.03, "style:3": 0.03, "via:string": 0.04,
+                         "f:aware-datetime": 0.004}),
         EnumPart("null", list(V.PROTOCOL_VERSIONS), null_cases, interpret_null),
     ]
